@@ -144,6 +144,9 @@ type canonCombo struct {
 	RemoveUser, RemovePort, RemoveFrag bool
 	Sort                               int    // 0 none, 1 keys, 2 parameter
 	Scheme                             string // default scheme
+	// Under: url parser options of the underlying parser, given in the SAME option list as the canonicalizer
+	// options ("x the listed parser options"); the expectation is then stated on a parser built from them alone
+	Under []string
 }
 
 func (cc canonCombo) cfg() []string {
@@ -166,6 +169,7 @@ func (cc canonCombo) cfg() []string {
 	if cc.Scheme != "" {
 		c = append(c, "DefaultScheme("+cc.Scheme+")")
 	}
+	c = append(c, cc.Under...)
 	return c
 }
 
@@ -174,7 +178,29 @@ func allCombos() []canonCombo {
 	for m := 0; m < 8; m++ {
 		for s := 0; s < 3; s++ {
 			for _, sc := range []string{"", "http", "foo"} {
-				out = append(out, canonCombo{m&1 != 0, m&2 != 0, m&4 != 0, s, sc})
+				out = append(out, canonCombo{m&1 != 0, m&2 != 0, m&4 != 0, s, sc, nil})
+			}
+		}
+	}
+	return out
+}
+
+// combosOverParserOptions: every canonicalizer subset (without default-scheme, whose "fails only for lack of a scheme" is stated on the
+// default parser) on top of each listed parser option and of all of them together
+func combosOverParserOptions() []canonCombo {
+	var out []canonCombo
+	unders := [][]string{}
+	for _, o := range neutralOpts {
+		unders = append(unders, []string{o})
+	}
+	unders = append(unders, append([]string{}, neutralOpts...))
+	for _, un := range unders {
+		for m := 0; m < 8; m++ {
+			for s := 0; s < 3; s++ {
+				if m == 0 && s == 0 {
+					continue
+				}
+				out = append(out, canonCombo{m&1 != 0, m&2 != 0, m&4 != 0, s, "", un})
 			}
 		}
 	}
@@ -183,11 +209,15 @@ func allCombos() []canonCombo {
 
 // expectedCanon computes what the statement prescribes from the default parser and the setters.
 func expectedCanon(cc canonCombo, base, input string) (ok bool, obs impl.Full, list []model.Pair) {
+	under := c16Default
+	if len(cc.Under) > 0 {
+		under = parserFor(cc.Under)
+	}
 	retry := func(s string) (*url.Url, error) {
-		u, err := c16Default.Parse(s)
+		u, err := under.Parse(s)
 		if err != nil && cc.Scheme != "" {
 			if _, mo := mcfg().Parse(s, nil); mo == model.MissingScheme {
-				return c16Default.Parse(cc.Scheme + "://" + s)
+				return under.Parse(cc.Scheme + "://" + s)
 			}
 		}
 		return u, err
@@ -447,7 +477,7 @@ func c16SkipEquals(pairs []model.Pair) *fw.Finding {
 func init() {
 	fw.RegisterEvaluator("c16-noopt", func(cs *fw.Case) *fw.Finding { return c16NoOptions(string(cs.S[0]), string(cs.S[1])) })
 	fw.RegisterEvaluator("c16-canon", func(cs *fw.Case) *fw.Finding {
-		cc := canonCombo{cs.N[0] == 1, cs.N[1] == 1, cs.N[2] == 1, cs.N[3], string(cs.S[2])}
+		cc := canonCombo{cs.N[0] == 1, cs.N[1] == 1, cs.N[2] == 1, cs.N[3], string(cs.S[2]), strsOf(cs.S[3:])}
 		return c16Canon(cc, string(cs.S[0]), string(cs.S[1]))
 	})
 	fw.RegisterEvaluator("c16-neutral", func(cs *fw.Case) *fw.Finding {
@@ -532,12 +562,16 @@ func c16Body(c *fw.Ctx) {
 			f("", x)
 			f("h.test/base/", x)
 			f("http://u@h:81/d/?bq#bf", x)
+			// bases that fail for another reason than a missing scheme: default-scheme must leave them failing
+			f("http://a b/", x)
+			f("http://h:99999/d", x)
+			f("http://[::1/d", x)
 		}
 	}
 	small(func(b, i string) { inputs = append(inputs, in{b, i}) })
 	// (2)
 	c.Space("canon-combos")
-	combos := allCombos()
+	combos := append(allCombos(), combosOverParserOptions()...)
 	if c.Shard == 0 {
 		c.Count("canon_combinations", int64(len(combos)))
 		c.Count("option_clause_inputs", int64(len(inputs)))
@@ -549,14 +583,16 @@ func c16Body(c *fw.Ctx) {
 			}
 			cc0, x0 := cc, x
 			c.CurCase(func() *fw.Case {
-				return &fw.Case{Kind: "c16-canon", S: fw.Strs(x0.base, x0.input, cc0.Scheme), N: []int{b2i(cc0.RemoveUser), b2i(cc0.RemovePort), b2i(cc0.RemoveFrag), cc0.Sort}}
+				return &fw.Case{Kind: "c16-canon", S: fw.Strs(append([]string{x0.base, x0.input, cc0.Scheme}, cc0.Under...)...), N: []int{b2i(cc0.RemoveUser), b2i(cc0.RemovePort), b2i(cc0.RemoveFrag), cc0.Sort}}
 			})
 			c.Eval()
 			f := c16Canon(cc, x.base, x.input)
 			if f != nil {
 				cc, x := cc, x
 				n := []int{b2i(cc.RemoveUser), b2i(cc.RemovePort), b2i(cc.RemoveFrag), cc.Sort}
-				c.Report(f, func() *fw.Case { return &fw.Case{Kind: "c16-canon", S: fw.Strs(x.base, x.input, cc.Scheme), N: n} })
+				c.Report(f, func() *fw.Case {
+					return &fw.Case{Kind: "c16-canon", S: fw.Strs(append([]string{x.base, x.input, cc.Scheme}, cc.Under...)...), N: n}
+				})
 			} else {
 				c.Nontrivial()
 				if c.WantSample("canon-combos") && cc.Sort == 1 && cc.RemovePort && len(x.input) > 12 {
